@@ -65,6 +65,10 @@ check([[3, 3], [3, 3], [3, 3]], [[0.0, 0.0], [1e6, 1e6], [0.0, 0.0]], 2)
 check([[5, 5]], [[0.0, 0.0]], 3)
 check([[6, 6], [6, 6]], [[1.0, 1.0], [1.0, 1.0]], 2)
 check([[8, 8], [8, 8], [8, 8], [8, 8]], [[3e20, 1.0], [1.0, 1e-30], [1e-10, 5.0], [7.0, 7.0]], 5)
+# two groups of different dimension, the larger one carries no signal (its budget is left unused)
+check([[512, 384], [512, 384], [512, 384]], [[0.0, 2.0], [0.0, 1.0], [0.0, 0.5]], 64)
+check([[16, 9], [16, 9]], [[0.0, 3.0], [0.0, 1.0]], 4)
+check([[9, 16], [9, 16], [9, 16]], [[1e6, 0.0], [1e-6, 0.0], [1e-6, 1.0]], 3)
 n_rand = 150 if tier == "quick" else 1500
 for _ in range(n_rand):
   L = rng.randint(1, 6)
